@@ -181,4 +181,84 @@ theorem parseIndirect_render (lenOf : Int → Option Int) (num gen : Nat) (s1 s2
     · simp only [parseStreamData, h, hl, hnl, if_false, afterStream, skipStreamEOL_bytes, Int.toNat_natCast, hshort,
         hdrop, htake, hend, if_true, hreload, st5.cur, Body.value]
 
+/-! ### a stream whose `/Length` is a reference the resolver does not answer -/
+
+/-- the layout of a stream object whose `/Length` is the reference `m g R` — everything
+`Body.Ok` asks for except the resolver's answer -/
+def Body.OkRef (m g : Int) : Body → Prop
+  | .plain _ _ => False
+  | .stream pre kvs close s3 _ _ w4 s5 =>
+    (SObj.dict pre kvs close).Valid true ∧ (SObj.dict pre kvs close).value.depth ≤ maxNestingDepth ∧
+    SepOk s3 ∧ AllWs w4 ∧ SepOk s5 ∧ s5 ≠ [] ∧ dget (valueKVs kvs) kLength = some (.ref m g)
+
+/-- the number of data bytes of a stream layout -/
+def Body.dataLen : Body → Nat
+  | .plain _ _ => 0
+  | .stream _ _ _ _ _ data _ _ => data.length
+
+/-- answered with the number of data bytes, the layout is legal -/
+theorem Body.OkRef.ok {b : Body} {m g : Int} (h : b.OkRef m g) (lenOf : Int → Option Int)
+    (hl : lenOf m = some (b.dataLen : Int)) : b.Ok lenOf := by
+  cases b with
+  | plain val s3 => exact h.elim
+  | stream pre kvs close s3 seol data w4 s5 =>
+    obtain ⟨a1, a2, a3, a4, a5, a6, a7⟩ := h
+    exact ⟨a1, a2, a3, a4, a5, a6, Or.inr ⟨m, g, a7, hl⟩⟩
+
+/-- **an indirect `/Length` that is not answered is an error**: the same layout as in
+`parseIndirect_render`, but the resolver has no integer for the `/Length` reference (the
+object is missing, not an integer, or — since 129dd3d — nested too deep):
+`ParseIndirectObject` fails -/
+theorem parseIndirect_render_unresolved (lenOf : Int → Option Int) (num gen : Nat) (s1 s2 : Sep) (b : Body)
+    (rest : Str) (m g : Int) (hn : num ≤ maxInt64) (hg : gen ≤ maxInt64)
+    (h1 : SepOk s1) (h1n : s1 ≠ []) (h2 : SepOk s2) (h2n : s2 ≠ [])
+    (hb : b.OkRef m g) (hl : lenOf m = none) (hT : Terminated rest) :
+    parseIndirect (renderIndirect num gen s1 s2 b rest) lenOf = none := by
+  cases b with
+  | plain val s3 => exact hb.elim
+  | stream pre kvs close s3 seol data w4 s5 =>
+    obtain ⟨hv, hd, h3, h4, h5, h5n, hlen⟩ := hb
+    have hbT : Terminated ((Body.stream pre kvs close s3 seol data w4 s5).render rest) :=
+      term_obj _ true hv _ (Or.inl rfl)
+    have st0 : Starts (dec num ++ (renderSep s1 ++ (dec gen ++ (renderSep s2 ++ (kwObj ++ (Body.stream pre kvs close s3 seol data w4 s5).render rest)))))
+        (.integer (dec num)) (renderSep s1 ++ (dec gen ++ (renderSep s2 ++ (kwObj ++ (Body.stream pre kvs close s3 seol data w4 s5).render rest)))) := by
+      have := starts_dec [] num (renderSep s1 ++ (dec gen ++ (renderSep s2 ++ (kwObj ++ (Body.stream pre kvs close s3 seol data w4 s5).render rest))))
+        (by intro u hu; cases hu) (sep_terminated s1 _ h1 h1n)
+      rw [show renderSep [] = [] from rfl, List.nil_append] at this
+      exact this
+    have st1 := starts_dec s1 gen (renderSep s2 ++ (kwObj ++ (Body.stream pre kvs close s3 seol data w4 s5).render rest)) h1
+      (sep_terminated s2 _ h2 h2n)
+    have st2 : Starts (renderSep s2 ++ (kwObj ++ (Body.stream pre kvs close s3 seol data w4 s5).render rest)) (.keyword kwObj)
+        ((Body.stream pre kvs close s3 seol data w4 s5).render rest) :=
+      kw_starts s2 111 [98, 106] _ h2 (by decide) (by decide) (by decide) (by decide) hbT
+    have hhead : parseIndirect (renderIndirect num gen s1 s2 (Body.stream pre kvs close s3 seol data w4 s5) rest) lenOf =
+        indirectBody (fuelFor (renderIndirect num gen s1 s2 (Body.stream pre kvs close s3 seol data w4 s5) rest)) (num : Int) (gen : Int)
+          (stateAt ((Body.stream pre kvs close s3 seol data w4 s5).render rest)) lenOf := by
+      unfold parseIndirect
+      have e0 : newParser (renderIndirect num gen s1 s2 (Body.stream pre kvs close s3 seol data w4 s5) rest) =
+          stateAt (dec num ++ (renderSep s1 ++ (dec gen ++ (renderSep s2 ++ (kwObj ++ (Body.stream pre kvs close s3 seol data w4 s5).render rest))))) := rfl
+      simp only [e0, st0.cur, atoi_dec num hn, st0.next, st1.cur, atoi_dec gen hg, st1.next, st2.cur, st2.next,
+        if_true]
+    rw [hhead]
+    unfold indirectBody
+    let afterStream := seol.bytes ++ (data ++ (w4 ++ (kwEndstream ++ (renderSep s5 ++ (kwEndobj ++ rest)))))
+    have hst := stateAt_stream s3 afterStream h3 (streamEol_terminated seol _)
+    have hcur : (stateAt (renderSep s3 ++ (kwStream ++ afterStream))).cur = some (.keyword kwStream) := by
+      rw [hst]
+    have er : (Body.stream pre kvs close s3 seol data w4 s5).render rest =
+        (SObj.dict pre kvs close).render ++ (renderSep s3 ++ (kwStream ++ afterStream)) := rfl
+    have hfuel : (SObj.dict pre kvs close).size ≤
+        fuelFor (renderIndirect num gen s1 s2 (Body.stream pre kvs close s3 seol data w4 s5) rest) := by
+      have := fuel_ok (SObj.dict pre kvs close) (dec num ++ (renderSep s1 ++ (dec gen ++ (renderSep s2 ++ kwObj))))
+        (renderSep s3 ++ (kwStream ++ afterStream))
+      unfold renderIndirect
+      rw [er]
+      simpa [List.append_assoc] using this
+    have hp := parse_roundtrip (SObj.dict pre kvs close) true (renderSep s3 ++ (kwStream ++ afterStream))
+      (fuelFor (renderIndirect num gen s1 s2 (Body.stream pre kvs close s3 seol data w4 s5) rest))
+      0 hv hfuel
+      (by omega) (by intro he; simp [SObj.endsRegular] at he) (firstNotR_kw (r := afterStream) hcur) (noRefAhead_kw hcur)
+    rw [er, hp, hst]
+    simp only [SObj.value, if_true, parseStreamData, hlen, hl]
+
 end Tabula.XrefFile
